@@ -261,5 +261,5 @@ LEVEL_TEXT = ('Generated-input search over all 132 (o_dim, ri_dim) integer pairs
               'layout and agree with the default inverse; J-level and j-level pyramids must share their first j levels; '
               'the two internal axis tables are enumerated completely in every case.')
 LEVEL_NOTE = ('Metamorphic relations against the library itself (its absolute correctness is C03/C04/C11); bitwise equality '
-              'relies on deterministic CPU kernels (a <=4 ulp difference in the inverse is counted, not failed).')
+              'relies on deterministic CPU kernels (a difference of up to 64 ulp of the largest value is counted, not failed).')
 TECHNIQUE = 'property-based testing (Hypothesis), metamorphic relations (axis permutation, masking, prefix) checked bitwise'
